@@ -234,9 +234,12 @@ def run_case(case):
             viol('C09.hoist.not_gated' if (a['kind'] == 'const' and only_alias) else None,
                  'tainted module but a new name %s was introduced (%s) in a %s scope' % (a['name'], a.get('value') or a.get('rhs'), a['scope']))
         # per scope the bound-name sets are equal
-        for sp, sq in zip(r.pmodel.scopes, r.qmodel.scopes):
-            if sp.bound != sq.bound and not r.aliases and not names_changed:
-                viol(None, 'scope %s binds %r in the input and %r in the output' % (sp.name, sorted(sp.bound ^ sq.bound)[:6], ''))
+        for pi, qi in sorted(r.scope_map.items()):
+            sp, sq = r.pmodel.scopes[pi], r.qmodel.scopes[qi]
+            bp = set(n for n in sp.bound if any(o.key in r.paired_p for o in r.p_binders.get((pi, n), [])))
+            bq = set(n for n in sq.bound if any(o.key in r.paired_q for o in r.q_binders.get((qi, n), [])))
+            if bp != bq and not r.aliases and not names_changed:
+                viol(None, 'scope %s binds %r only in the input and %r only in the output' % (sp.name, sorted(bp - bq)[:6], sorted(bq - bp)[:6]))
         if case.get('untainted_changes'):
             res['nontrivial'].append(common.sha(src) + '|' + common.opts_key(opts))
     if prop == 'C10':
